@@ -17,6 +17,7 @@ import Fir.Model.SimdU8x2
 import Fir.Model.SimdU16x1
 import Fir.Model.SimdU16x4
 import Fir.Model.SimdU16x2
+import Fir.Model.SimdU16x3
 namespace Fir
 
 /-- C02 tolerance between two back-ends: integers identical, f32 a few ulps of a re-associated f64 sum -/
@@ -234,6 +235,22 @@ def handleKernel (fs : List (String × String)) : String :=
                   return some s!"lane model of the SSE4.1 U16x2 horizontal kernels: pixel ({x},{y}) channel {ch}: model={px.getD ch 0} got={got[(y * dw + x) * 2 + ch]!}"
           return none
         else none
+      -- RGB16 on SSE4.1, horizontal pass: four-row blocks (`pixelR`) and leftover rows (`pixel`), width-dependent pair loop
+      let lane163 : Option String :=
+        if p.kind == .u16 ∧ p.n == 3 ∧ ext == "sse4" ∧ pass == "h" ∧ got.size == dw * dh * 3 then Id.run do
+          let q := normalize32 c
+          for y in [0:dh] do
+            let row : List Int := (List.range (sw * 3)).map fun i => src[(offset + y) * sw * 3 + i]!
+            for x in [0:dw] do
+              let (start, ks) := q.chunks.getD x (0, #[])
+              let px := if y < dh - dh % 4 then SimdU16x3.pixelR q.precision sw row start ks.toList
+                        else SimdU16x3.pixel q.precision sw row start ks.toList
+              for ch in [0:3] do
+                if px.getD ch 0 ≠ got[(y * dw + x) * 3 + ch]! then
+                  return some s!"lane model of the SSE4.1 U16x3 horizontal kernels: pixel ({x},{y}) channel {ch}: model={px.getD ch 0} got={got[(y * dw + x) * 3 + ch]!}"
+          return none
+        else none
+      let lane162 := match lane162 with | some e => some e | none => lane163
       let lane164 := match lane164 with | some e => some e | none => lane162
       let lane16 := match lane16 with | some e => some e | none => lane164
       let lane2 := match lane2 with | some e => some e | none => lane16
